@@ -6,11 +6,12 @@
    canonical in the sense of Base/Canon.v (aligned, strictly ascending, disjoint, sibling-free), IPv4 first;
    SetInv d = keys wfh, pairwise non-overlapping, no two siblings (no order); net_below a b = a's family is lower, or
    same family and a ends before b starts; skey_le = lexicographic <= on IPNetwork.sort_key().
-   iprange_to_cidrs_spec / cidr_merge_spec are the C05 specifications (hypotheses here, instantiated when Proofs/C05.v
-   lands); add_spec, remove_spec, pop_spec, inter_spec, diff_spec, xor_spec are the statements proved in
-   Proofs/C06_add.v and Proofs/C07_*.v. *)
+   The C05 specifications iprange_to_cidrs_spec / cidr_merge_spec and add_spec / remove_spec are discharged in
+   Proofs/C06_inst.v (from Proofs/C05.v and Proofs/C06_add.v); inter_spec, diff_spec, xor_spec (Proofs/C06_inv.v:
+   `set_intersection/difference/symdiff a b` of SetInv operands return a SetInv dict denoting the set-theoretic result)
+   are the only hypotheses left, in the three all-operation history theorems of section 8(b). *)
 From NV Require Import Base.Tac Base.PyVal Base.Bits Base.Canon Model.Ip Model.Partition Model.Span Model.Merge Model.Sets
-  Proofs.C02 Proofs.NetDen Proofs.C06_inv Proofs.C06_bulk.
+  Proofs.C02 Proofs.NetDen Proofs.C06_inv Proofs.C06_bulk Proofs.C06_inst.
 From Coq Require Import Sorting.Sorted Sorting.Permutation.
 From NV Require Import Extract.Cmd_Sets.
 Open Scope Z_scope.
@@ -152,31 +153,33 @@ Proof. exact C06_inv.C06_extensional. Qed.
 Print Assumptions C06_extensional.
 
 (* ---------------------------------------------------------------- 6. bulk constructors and mutators *)
+(* (the specifications of iprange_to_cidrs / cidr_merge / add / remove are discharged in Proofs/C06_inst.v by
+   Proofs/C05 and Proofs/C06_add.v; the hypothetical forms stay available in Proofs/C06_bulk.v) *)
 (* IPSet(None | IPNetwork | IPRange/IPGlob | IPSet | iterable of ints, addresses, networks, ranges) *)
-Theorem C06_init : iprange_to_cidrs_spec -> cidr_merge_spec -> forall a, wf_sarg a ->
+Theorem C06_init : forall a, wf_sarg a ->
   exists d, set_init a = Ok d /\ SetInv d /\ forall ver x, den d ver x <-> in_sarg a ver x.
-Proof. exact C06_bulk.C06_init. Qed.
+Proof. exact C06_init_inst. Qed.
 Print Assumptions C06_init.
 
 (* compact(): whatever well-formed networks are stored, the result is the canonical list of their union *)
-Theorem C06_compact : cidr_merge_spec -> forall d, Forall wf_net d ->
+Theorem C06_compact : forall d, Forall wf_net d ->
   exists d', set_compact d = Ok d' /\ SetInv d' /\ canon_nets d' /\ forall ver x, den d' ver x <-> den d ver x.
-Proof. exact C06_bulk.C06_compact. Qed.
+Proof. exact C06_compact_inst. Qed.
 Print Assumptions C06_compact.
 
 (* update(IPSet | IPNetwork | IPRange | iterable); update(None) raises TypeError *)
-Theorem C06_update : iprange_to_cidrs_spec -> cidr_merge_spec -> add_spec -> forall d a, SetInv d -> wf_sarg a -> a <> ANone ->
+Theorem C06_update : forall d a, SetInv d -> wf_sarg a -> a <> ANone ->
   exists d', set_update d a = Ok d' /\ SetInv d' /\ forall ver x, den d' ver x <-> den d ver x \/ in_sarg a ver x.
-Proof. exact C06_bulk.C06_update. Qed.
+Proof. exact C06_update_inst. Qed.
 Print Assumptions C06_update.
 
 Theorem C06_update_none : forall d, set_update d ANone = Raise TypeError.
 Proof. exact update_none. Qed.
 Print Assumptions C06_update_none.
 
-Theorem C06_union : cidr_merge_spec -> forall a b, SetInv a -> SetInv b ->
+Theorem C06_union : forall a b, SetInv a -> SetInv b ->
   exists d, set_union a b = Ok d /\ SetInv d /\ forall ver x, den d ver x <-> den a ver x \/ den b ver x.
-Proof. exact C06_bulk.C06_union. Qed.
+Proof. exact C06_union_inst. Qed.
 Print Assumptions C06_union.
 
 Theorem C06_copy : forall d, SetInv d ->
@@ -189,11 +192,10 @@ Proof. exact C06_bulk.C06_clear. Qed.
 Print Assumptions C06_clear.
 
 (* add(IPRange | IPGlob), the bulk branch of add(); update(IPRange) is the same call *)
-Theorem C06_add_range : iprange_to_cidrs_spec -> cidr_merge_spec ->
-  forall d ver s e, Forall wf_net d -> valid_ver ver = true -> 0 <= s <= e -> e < 2 ^ width ver ->
+Theorem C06_add_range : forall d ver s e, Forall wf_net d -> valid_ver ver = true -> 0 <= s <= e -> e < 2 ^ width ver ->
   exists d', set_add d (ERange ver s e) = Ok d' /\ SetInv d' /\ canon_nets d' /\
     forall ver' x, den d' ver' x <-> den d ver' x \/ (ver' = ver /\ s <= x <= e).
-Proof. exact set_add_range. Qed.
+Proof. exact C06_add_range_inst. Qed.
 Print Assumptions C06_add_range.
 
 (* pop(): KeyError exactly on the empty set; otherwise the last inserted key is removed and returned *)
@@ -222,30 +224,48 @@ Theorem C06_steps_enc : forall ops rs,
 Proof. exact steps_enc. Qed.
 Print Assumptions C06_steps_enc.
 
-Theorem C06_step : iprange_to_cidrs_spec -> cidr_merge_spec -> add_spec -> remove_spec ->
-  inter_spec -> diff_spec -> xor_spec ->
+(* (a) histories of init/add/remove/update/clear/compact/copy/pickle/pop/union (sweep_free: no & - ^): unconditional *)
+Theorem C06_step_core : forall rs s o, sweep_free o -> Rel rs s -> wf_op o ->
+  exists s', astep s o s' /\ Rel (ostep rs o) s'.
+Proof. exact C06_step_core_inst. Qed.
+Print Assumptions C06_step_core.
+
+Theorem C06_reachable_core : forall ops rs s, Rel rs s -> Forall wf_op ops -> Forall sweep_free ops ->
+  exists s', aruns s ops s' /\ Rel (fold_left ostep ops rs) s'.
+Proof. exact C06_reachable_core_inst. Qed.
+Print Assumptions C06_reachable_core.
+
+(* from the four empty registers: after ANY such history every register satisfies the invariant, shows the canonical
+   list of the set the abstract run assigns to it, and == between registers is equality of those sets *)
+Theorem C06_reachable_shown_core : forall ops, Forall wf_op ops -> Forall sweep_free ops ->
+  exists s', aruns aregs0 ops s' /\
+    let rs := fold_left ostep ops regs0 in
+    (forall r, SetInv (get rs r) /\ canon_nets (sorted (get rs r)) /\
+               forall ver x, den (sorted (get rs r)) ver x <-> aget s' r ver x) /\
+    (forall r1 r2, dict_eqb (get rs r1) (get rs r2) = true <-> forall ver x, aget s' r1 ver x <-> aget s' r2 ver x).
+Proof. exact C06_reachable_shown_core_inst. Qed.
+Print Assumptions C06_reachable_shown_core.
+
+(* (b) all thirteen operations: the specifications of & - ^ (C07 sweeps) are the only remaining hypotheses *)
+Theorem C06_step : inter_spec -> diff_spec -> xor_spec ->
   forall rs s o, Rel rs s -> wf_op o -> exists s', astep s o s' /\ Rel (ostep rs o) s'.
-Proof. exact C06_bulk.C06_step. Qed.
+Proof. exact C06_step_inst. Qed.
 Print Assumptions C06_step.
 
-Theorem C06_reachable : iprange_to_cidrs_spec -> cidr_merge_spec -> add_spec -> remove_spec ->
-  inter_spec -> diff_spec -> xor_spec ->
+Theorem C06_reachable : inter_spec -> diff_spec -> xor_spec ->
   forall ops rs s, Rel rs s -> Forall wf_op ops ->
   exists s', aruns s ops s' /\ Rel (fold_left ostep ops rs) s'.
-Proof. exact C06_bulk.C06_reachable. Qed.
+Proof. exact C06_reachable_inst. Qed.
 Print Assumptions C06_reachable.
 
-(* from the four empty registers: after ANY finite history every register satisfies the invariant, shows the canonical
-   list of the set the abstract run assigns to it, and == between registers is equality of those sets *)
-Theorem C06_reachable_shown : iprange_to_cidrs_spec -> cidr_merge_spec -> add_spec -> remove_spec ->
-  inter_spec -> diff_spec -> xor_spec ->
+Theorem C06_reachable_shown : inter_spec -> diff_spec -> xor_spec ->
   forall ops, Forall wf_op ops ->
   exists s', aruns aregs0 ops s' /\
     let rs := fold_left ostep ops regs0 in
     (forall r, SetInv (get rs r) /\ canon_nets (sorted (get rs r)) /\
                forall ver x, den (sorted (get rs r)) ver x <-> aget s' r ver x) /\
     (forall r1 r2, dict_eqb (get rs r1) (get rs r2) = true <-> forall ver x, aget s' r1 ver x <-> aget s' r2 ver x).
-Proof. exact C06_bulk.C06_reachable_shown. Qed.
+Proof. exact C06_reachable_shown_inst. Qed.
 Print Assumptions C06_reachable_shown.
 
 (* ---------------------------------------------------------------- non-vacuity *)
